@@ -128,7 +128,7 @@ theorem Sl_rebalanceChildren_eq_model (T : Nat) (look) {d : Nat} (m : MetaSlab (
   cases flag
   all_goals
     simp only [Bool.false_eq_true, if_false, if_true] at hop
-    simp only [TransSl.ArrayMetaDataSlab_rebalanceChildren, trMeta_childrenCountSum, goIdx_map, hget, Option.map_some,
+    simp only [TransSl.ArrayMetaDataSlab_rebalanceChildren, TransSl.ArrayMetaDataSlab_rebalanceChildren.k1, trMeta_childrenCountSum, goIdx_map, hget, Option.map_some,
       hop, Bool.false_eq_true, if_false, if_true, Option.isSome_none, disp_Header, trHdr_count, trMeta_childrenHeaders,
       goSet_map, hli', List.length_set, hri, u32_sub' hbase, u32_add', hli, storeSlab_envA, slabID_trTree,
       MetaSlab.rebalanceChildren]
